@@ -154,7 +154,7 @@ func checkC08(c c08Case) *core.Failure {
 func TestC08(t *testing.T) {
 	r := core.Start(t, "C08")
 	defer r.Finish()
-	r.Rule = "(a) exhaustive: synthetic extensions over OIDs {A,B} (thorough also {A,B,C} at smaller bounds); profile lists up to length 2 (quick) / 3 (thorough) over entry x optional x override (24 values per entry, content-less entries included), certificate lists up to length 3 / 4 over 4 values, every pair fed to config.Merge and compared with the documented rules, with deep snapshots of both inputs (including the spare capacity of the certificate's slice) before and after. (b) random: real extension kinds end to end through YAML with related profiles (see C06), including the must-fail case of a remaining content-less entry. Non-trivial = repeated OID on either side, or optional and override on one entry, or a content-less entry; distinct by the pair."
+	r.Rule = "(a) exhaustive: synthetic extensions over OIDs {A,B} (thorough also {A,B,C} with profile and certificate lists up to length 3); profile lists up to length 2 (quick) / 3 (thorough) over entry x optional x override (24 values per entry, content-less entries included), certificate lists up to length 3 / 4 over 4 values, every pair fed to config.Merge and compared with the documented rules, with deep snapshots of both inputs (including the spare capacity of the certificate's slice) before and after. (b) random: real extension kinds end to end through YAML with related profiles (see C06), including the must-fail case of a remaining content-less entry. Non-trivial = repeated OID on either side, or optional and override on one entry, or a content-less entry; distinct by the pair."
 	r.Assumptions = []string{"'differs' is decided on configuration values; the end-to-end generator avoids pairs that are equal in encoding but not in text"}
 	wrap := func(c c08Case) *core.Failure {
 		nt := false
@@ -273,12 +273,12 @@ func TestC08(t *testing.T) {
 		enumerate([]string{"A", "B"}, 2, 3)
 	} else {
 		enumerate([]string{"A", "B"}, 3, 4)
-		enumerate([]string{"A", "B", "C"}, 2, 3)
+		enumerate([]string{"A", "B", "C"}, 3, 3)
 	}
 	r.Extra["exhaustive_part"] = "config.Merge on synthetic extensions within the stated bounds; the end-to-end part is sampled"
 	gen := func(t *rapid.T) extCase {
 		c := genExtCase(t, core.AllKinds, 6, 64, true)
 		return c
 	}
-	core.Rapid(r, "e2e", r.Pick(1200, 30000), gen, wrapWorld)
+	core.Rapid(r, "e2e", r.Pick(1200, 120000), gen, wrapWorld)
 }
